@@ -4,6 +4,11 @@ import json, os, subprocess
 HERE = os.path.dirname(os.path.dirname(os.path.abspath(__file__)))
 
 CHECKS = {
+ 'C17': dict(
+    category='exploration', design_ref='4/C17, 3.2',
+    technique='schedule fuzzer on every statement of IterableQueue.__next__/put_end/renew with a targeted site between `_used_lids.put` and the `full()` test; per-round multiset oracle on unique items; qsize()==0 after renew; bounded-progress watchdog; stop-request latency monitor',
+    text='260 (quick) / 6000 (thorough) multi-round runs with 1-4 supplier and 1-4 consumer threads on one queue (bound 0-3), 2-5 rounds separated by renew() behind a barrier, incl. falsy items; every item put before put_end is received exactly once in its round, no end marker is yielded, every consumer finishes, qsize()==0 right after renew; spawned-process variant sampled; blocked get/put raise StopRequested after a stop event (latency reported).',
+    note='Trusted: hang rule = 20 s + 5 s per round AND stable stacks; stop requests must take effect within 10 s (wait interval 1 s).'),
  'C12': dict(
     category='fault_enumeration', design_ref='4/C12',
     technique='fault enumeration (kind x ending x value/exception class x first accessor x kill signal x kill phase) with a consistency-table oracle over all seven accessors, each call under the bounded-progress watchdog; targeted delay on the first line of Thread.run',
